@@ -1,4 +1,5 @@
 import WindVerif.Proofs.Combos
+import WindVerif.Proofs.CombosK
 /-!
 # C17 — sorted_combinations is complete and key-ordered; min-combination search exact
 
@@ -68,6 +69,60 @@ theorem combosE_sorted (elems : List Nat) : ((sortedCombinationsE elems).map (·
 
 /-- non-vacuity: `sorted_combinations([1, 2, 1], sum)` — 7 tuples, the repeated value keeps both its occurrences -/
 example : (sortedCombinationsE [1, 2, 1]).map (·.1) = [[1], [1], [2], [1, 1], [1, 2], [2, 1], [1, 2, 1]] := by decide
+
+/-! ### an ARBITRARY key (on index combinations; `sortedCombinationsK`, `Model/GenericK.lean`)
+
+The property quantifies over every key that never decreases when an element is appended (`KeyMono`).  Completeness and the
+key alongside hold for any key whatsoever; the key order needs exactly `KeyMono`; the score-sum model above is the instance
+`key = scoreSum scores`. -/
+
+/-- every non-empty index combination exactly once, for ANY key and any element values -/
+theorem combosK_complete (val : Nat → Nat) (key : List Nat → Nat) (n : Nat) :
+    ((sortedCombinationsK val key n).map (·.1)).Perm (allCombos n) := by
+  first | exact WindVerif.Generic.combosK_complete .. | (apply WindVerif.Generic.combosK_complete <;> assumption)
+
+/-- the key yielded alongside is the key of the combination -/
+theorem combosK_keys (val : Nat → Nat) (key : List Nat → Nat) (n : Nat) (p : List Nat × Nat)
+    (hp : p ∈ sortedCombinationsK val key n) : p.2 = key p.1 := by
+  first | exact WindVerif.Generic.combosK_keys .. | (apply WindVerif.Generic.combosK_keys <;> assumption)
+
+/-- in non-decreasing key order, for every key that never decreases when an element is appended -/
+theorem combosK_sorted (val : Nat → Nat) (key : List Nat → Nat) (n : Nat) (h : KeyMono key) :
+    ((sortedCombinationsK val key n).map (·.2)).Pairwise (· ≤ ·) := by
+  first | exact WindVerif.Generic.combosK_sorted .. | (apply WindVerif.Generic.combosK_sorted <;> assumption)
+
+/-- the same without `yield_key`: the yielded combinations are in non-decreasing order of their keys -/
+theorem combosK_sorted_by_key (val : Nat → Nat) (key : List Nat → Nat) (n : Nat) (h : KeyMono key) :
+    (((sortedCombinationsK val key n).map (·.1)).map key).Pairwise (· ≤ ·) := by
+  first | exact WindVerif.Generic.combosK_sorted_by_key .. | (apply WindVerif.Generic.combosK_sorted_by_key <;> assumption)
+
+/-- the score-sum model of the theorems above is the instance `key = scoreSum scores` -/
+theorem combosK_sum (val : Nat → Nat) (scores : List Nat) :
+    sortedCombinationsK val (scoreSum scores) scores.length = sortedCombinationsV val scores := by
+  first | exact WindVerif.Generic.combosK_sum .. | (apply WindVerif.Generic.combosK_sum <;> assumption)
+
+/-- the hypothesis of `combosK_sorted` is needed: a key that decreases under appending, with an unsorted key sequence -/
+theorem combosK_needs_mono :
+    ∃ (key : List Nat → Nat) (n : Nat), ¬ KeyMono key ∧
+      ¬ ((sortedCombinationsK (fun i => i) key n).map (·.2)).Pairwise (· ≤ ·) := by
+  first | exact WindVerif.Generic.combosK_needs_mono .. | (apply WindVerif.Generic.combosK_needs_mono <;> assumption)
+
+/-- non-vacuity of `KeyMono`: the key families of the driver meet it (none of them is the score sum but `keySum`) -/
+example : KeyMono (keySpread [5, 1, 2]) ∧ KeyMono (keyMax [5, 1, 2]) ∧ KeyMono (keyDistinct [4, 4, 7]) ∧
+    KeyMono keyLen ∧ KeyMono (keyConst 7) ∧ KeyMono (keySum [5, 1, 2]) :=
+  ⟨keySpread_mono _, keyMax_mono _, keyDistinct_mono _, keyLen_mono, keyConst_mono _, keySum_mono _⟩
+
+/-- non-vacuity: the spread key (max − min) on the scores [5, 1, 2] — not additive; (0, 2) with key 3 comes before (0, 1)
+with key 4, where the score sums are 7 and 6 -/
+example : sortedCombinationsK (fun i => i) (keySpread [5, 1, 2]) 3 =
+    [([0], 0), ([1], 0), ([2], 0), ([1, 2], 1), ([0, 2], 3), ([0, 1], 4), ([0, 1, 2], 4)] := by decide
+
+/-- non-vacuity: the number of distinct scores, scores [4, 4, 7] -/
+example : sortedCombinationsK (fun i => i) (keyDistinct [4, 4, 7]) 3 =
+    [([0], 1), ([1], 1), ([2], 1), ([0, 1], 1), ([0, 2], 2), ([1, 2], 2), ([0, 1, 2], 2)] := by decide
+
+/-- the counterexample of `combosK_needs_mono` spelled out: keys 2, 1, 2 -/
+example : sortedCombinationsK (fun i => i) (fun c => 3 - c.length) 2 = [([0], 2), ([0, 1], 1), ([1], 2)] := by decide
 
 /-- non-vacuity -/
 example : allCombos 2 = [[1], [0], [0, 1]] := by decide
